@@ -440,3 +440,17 @@ package updog
 //@   ensures [C19] pending_transaction_finished: idx.tempTx != nil ==> idx.tempTx.done
 //@   ensures [C19] idx.tempTx != nil && idx.tempTx.writable && !old(idx.tempTx.done) ==> !idx.tempTx.gdb.wopen
 //@   ensures idx.mtx.held == 0
+
+//@ func [C06,C05,C19] (*BigIndexWriter).Flush(idx) (err)
+//@   requires BigWInv(idx) && DBOpen(idx.db) && !idx.db.wopen
+//@   requires [C06] output_has_no_index_yet: !sin(idx.db.committed, kS())
+//@   modifies heap bbolt.Tx.work; heap bbolt.Tx.done; heap bbolt.DB.committed; heap bbolt.DB.commits; heap bbolt.DB.ncommits; heap bbolt.DB.wopen; heap roaring.Bitmap.view
+//@   ensures [C06] all_or_nothing: err != nil ==> idx.db.ncommits == old(idx.db.ncommits) && idx.db.committed == old(idx.db.committed)
+//@   ensures [C06,C05] complete_in_one_commit: err == nil ==> idx.db.ncommits == old(idx.db.ncommits) + 1 && idx.db.commits[old(idx.db.ncommits)] == idx.db.committed
+//@        && shas(idx.db.committed) && sin(idx.db.committed, kS()) && sin(idx.db.committed, kI()) && blen(sval(idx.db.committed, kI())) == 4
+//@   ensures [C19] no_transaction_left_open: !idx.db.wopen && !idx.tempDB.wopen
+//@   loop 1
+//@     invariant idx != nil && idx.db != nil && idx.db != idx.tempDB && !idx.db.closed && idx.db.wopen && idx.db.ncommits == old(idx.db.ncommits) && idx.db.committed == old(idx.db.committed)
+//@     invariant tx != nil && !(tx in old($alloc)) && tx.gdb == idx.db && tx.writable && !tx.done && dataBucket != nil && dataBucket.gtx == tx && shas(tx.work)
+//@     invariant tempTx != nil && !(tempTx in old($alloc)) && tempTx.gdb == idx.tempDB && !tempTx.writable && tempTx != tx && !idx.tempDB.wopen
+//@     invariant cursor != nil && idx.schema != nil
